@@ -1409,7 +1409,8 @@ def delta2tr(d):
     :SymPy: supported
     """
 
-    return np.eye(4, 4) + base.skewa(d)
+    S = base.skewa(d)
+    return np.eye(4, 4, dtype=S.dtype) + S
 
 
 def trinv(T):
